@@ -46,13 +46,21 @@ class Builder:
     Task object whose body has its own code object (so Task.__eq__ is identity
     on ids) and reports to [self.on_call]."""
 
-    def __init__(self, on_call=None, task_kwargs=None, sigs=None, build_seed=None):
+    def __init__(self, on_call=None, task_kwargs=None, sigs=None, build_seed=None, probe_names=(), late_config=False):
         """build_seed: None = children are completed before they are attached and nothing is queried
         while building; an int = pseudo-randomly attach (non-module) sub-collections *before*
         populating them and query the half-built collections (task_names, truth value, lookups) in
         between -- the built tree must not depend on either"""
         import random as _random
         self.order = None if build_seed is None else _random.Random(build_seed)
+        # probe_names: names whose configuration() is also queried on the half-built collections;
+        # late_config (with a build seed): some collections get their configure() calls only after the
+        # tree is complete and has been queried once (build_and_dump: before_finish) -- a lookup, then
+        # configure() on a collection of the path, then the judged lookup
+        self.probe_names = list(probe_names)
+        self.late = bool(late_config) and self.order is not None and self.order.random() < 0.6
+        self.deferred = []
+        self._in_module = 0
         self.built = []
         self.dicts = {}      # JSON text -> the one dict object handed out for that content
         self.tasks = {}
@@ -89,7 +97,11 @@ class Builder:
         import types
         mod = types.ModuleType(spec["module"])
         mod.__doc__ = "COLL"
-        mod.ns = self.coll(ns_spec if ns_spec is not None else spec["ns"])
+        self._in_module += 1       # (from_module copies the namespace's configuration: nothing deferred inside)
+        try:
+            mod.ns = self.coll(ns_spec if ns_spec is not None else spec["ns"])
+        finally:
+            self._in_module -= 1
         return mod
 
     def from_module(self, spec):
@@ -97,11 +109,12 @@ class Builder:
         the namespace's configuration is handed to from_module(config=...) instead of ns.configure()"""
         from invoke import Collection
         cfg = spec["ns"].get("config", {})
+        kw = {"name": spec["fm_name"]} if spec.get("fm_name") else {}
         if self.order is not None and cfg and "config_parts" not in spec["ns"] and self.order.random() < 0.5:
             a, b = split_config(cfg, self.order)
             mod = self.module(spec, dict(spec["ns"], config=a))
-            return Collection.from_module(mod, auto_dash_names=spec.get("ad"), config=gt.unjson(b))
-        return Collection.from_module(self.module(spec), auto_dash_names=spec.get("ad"))
+            return Collection.from_module(mod, auto_dash_names=spec.get("ad"), config=gt.unjson(b), **kw)
+        return Collection.from_module(self.module(spec), auto_dash_names=spec.get("ad"), **kw)
 
     def shared(self, part):
         """the dict object for this content: the SAME object for equal contents (callers commonly pass
@@ -135,6 +148,11 @@ class Builder:
                 "no-such-name" in c
             except Exception:  # noqa: half-built trees may refuse lookups
                 pass
+            for nm in self.probe_names[:6]:
+                try:
+                    c.configuration(nm)
+                except Exception:  # noqa: not (yet) a name of this collection
+                    pass
 
     def plain_module(self, spec):
         """an ordinary tasks module: no explicit namespace, just top-level Task objects (in definition
@@ -161,13 +179,37 @@ class Builder:
                 attach(c)
             return c
         args = [spec["name"]] if spec.get("name") is not None else []
-        c = Collection(*args, auto_dash_names=spec.get("auto_dash", True))
+        items = list(spec.get("items", []))
+        named = {}
+        if self.order is not None and attach is None and self.order.random() < 0.4:
+            # Collection(*tasks_and_collections, **bound_by_name): the longest prefix of the items that the
+            # constructor can express in the same order -- unbound objects first, then name=object pairs
+            def simple(it):
+                if "task" in it:
+                    return not it.get("aliases") and it.get("default") is None
+                return not it.get("default") and "module" not in it["coll"]
+            k = 0
+            while k < len(items) and simple(items[k]) and items[k].get("bind") is None:
+                k += 1
+            j = k
+            seen = set()
+            while j < len(items) and simple(items[j]) and items[j].get("bind") is not None \
+                    and items[j]["bind"] not in seen and items[j]["bind"] != "auto_dash_names" \
+                    and items[j]["bind"] != "loaded_from":
+                seen.add(items[j]["bind"])
+                j += 1
+            for it in items[:k]:
+                args.append(self.task(it["task"]) if "task" in it else self.coll(it["coll"]))
+            for it in items[k:j]:
+                named[it["bind"]] = self.task(it["task"]) if "task" in it else self.coll(it["coll"])
+            items = items[j:]
+        c = Collection(*args, auto_dash_names=spec.get("auto_dash", True), **named)
         c.__doc__ = "COLL"
         self.built.append(c)
         if attach is not None:
             attach(c)
             self.probe()
-        for it in spec.get("items", []):
+        for it in items:
             if "task" in it:
                 kw = {}
                 if it.get("bind") is not None:
@@ -184,7 +226,7 @@ class Builder:
                 if it.get("default"):
                     kw["default"] = True
                 if "module" in it["coll"]:
-                    if it["coll"].get("ad") is None:
+                    if it["coll"].get("ad") is None and not it["coll"].get("fm_name"):
                         sub = self.module(it["coll"])      # add_collection(module) -> from_module(module)
                     else:
                         sub = self.from_module(it["coll"])
@@ -195,8 +237,17 @@ class Builder:
                 else:
                     c.add_collection(self.coll(it["coll"]), **kw)
             self.probe()
-        self.configure(c, spec)
+        if self.late and not self._in_module and self.order.random() < 0.6:
+            self.deferred.append((c, spec))
+        else:
+            self.configure(c, spec)
         return c
+
+    def finish(self):
+        """the configure() calls held back by late_config"""
+        for c, spec in self.deferred:
+            self.configure(c, spec)
+        self.deferred = []
 
 
 def task_id(task):
@@ -217,11 +268,16 @@ def dump(c):
     }
 
 
-def build_and_dump(spec, builder=None):
-    """-> (collection | None, {"ok": dump} | {"err": cls})"""
+def build_and_dump(spec, builder=None, before_finish=None):
+    """-> (collection | None, {"ok": dump} | {"err": cls}); before_finish(collection) runs on the complete
+    tree before the configure() calls a late_config builder held back"""
     b = builder or Builder()
     try:
         c = b.coll(spec)
+        if b.deferred:
+            if before_finish is not None:
+                before_finish(c)
+            b.finish()
     except Exception as e:  # noqa
         return None, {"err": type(e).__name__}
     return c, {"ok": dump(c)}
@@ -251,6 +307,11 @@ def item(it):
 def sub(spec, bind=None, default=False):
     if "module" in spec:
         ad = spec.get("ad")
+        if spec.get("fm_name"):
+            # from_module(module, name=X): "explicitly given name wins over root ns name, which wins over the
+            # module name" -- printed as the re-import of a module called X whose namespace is unnamed
+            return "(IMod %s %s %s %s %s)" % (ct.s(spec["fm_name"]), ct.opt(ct.b(ad) if ad is not None else None),
+                                              sub(dict(spec["ns"], name=None)), opt_s(bind), ct.b(default))
         return "(IMod %s %s %s %s %s)" % (ct.s(spec["module"]), ct.opt(ct.b(ad) if ad is not None else None),
                                           sub(spec["ns"]), opt_s(bind), ct.b(default))
     return "(ISub %s %s %s %s %s %s)" % (
@@ -274,9 +335,10 @@ def state(d):
 # generators
 # --------------------------------------------------------------------------
 TASK_NAMES = ["build", "clean", "my_task", "t", "deploy", "run_it", "x", "a_b_c", "_p", "q_", "do-it", "b",
-              "_cleanup_all"]
+              "_cleanup_all", "Build_All", "my__task", "mix_a-b", "__init"]
 ALIASES = ["bld", "c", "mt", "alias_one", "go", "z", "d-p", "al"]
-COLL_NAMES = ["sub", "docs", "my_mod", "inner", "deep", "s2", "lib-x", "m", "class_", "_priv"]
+COLL_NAMES = ["sub", "docs", "my_mod", "inner", "deep", "s2", "lib-x", "m", "class_", "_priv", "Lib_Y", "a__b",
+              "x_y-z"]
 
 # settings schema: which paths are sections (keeps most generated configs type-consistent)
 SCHEMA = {"run": {"echo": None, "shell": None, "env": {"A": None, "B": None}},
@@ -420,7 +482,10 @@ def as_plain_module(spec):
 
 def wrap_module(rng, spec):
     """the collection becomes the explicit `ns` of a module re-imported by from_module"""
-    return {"module": rng.choice(MOD_NAMES), "ad": rng.choice([None, None, True, False]), "ns": spec}
+    out = {"module": rng.choice(MOD_NAMES), "ad": rng.choice([None, None, True, False]), "ns": spec}
+    if rng.random() < 0.3:
+        out["fm_name"] = rng.choice(COLL_NAMES + MOD_NAMES)      # Collection.from_module(module, name=...)
+    return out
 
 
 def variants(s):
@@ -436,6 +501,8 @@ def vocabulary(spec):
     def walk(sp):
         if "module" in sp:
             cw.add(sp["module"])
+            if sp.get("fm_name"):
+                cw.add(sp["fm_name"])
             if sp["ns"].get("name"):
                 cw.add(sp["ns"]["name"])
             return walk(sp["ns"])
